@@ -66,9 +66,30 @@ package main
 // replica exists, from the first known replica's server; a wanted slot with no
 // replica anywhere makes the block "lost".  "Under-replicated" is sticky over
 // the storage classes (once any class is short, nothing is trashed).
+//@ func ChangeSet.AddTrash trusted
+//@   modifies ChangeSet.Trashes mem:Trash
+//@ func ChangeSet.AddPull trusted
+//@   modifies ChangeSet.Pulls mem:Pull
+//@ func computeBlockState trusted
+//@   modifies nothing
+//@ func rendezvousLess trusted pure
+//@   modifies nothing
+
+// roWanted: a replica on a read-only mount is always wanted (never trashed).
+//@ spec macro roWanted(slots) bool = forall k int :: 0 <= k && k < len(slots) && slots[k].repl != nil && slots[k].mnt.ReadOnly ==> slots[k].want
+
 //@ func Balancer.balanceBlock property C05 safety -bounds,-makeslice
-//@   loop 6: invariant 0 <= i
-//@   loop 7: invariant 0 <= i
+//@   loop 1: invariant roWanted(slots)
+//@   loop 2: invariant roWanted(slots)
+//@   loop 3: invariant roWanted(slots)
+//@   loop 4: invariant roWanted(slots)
+//@   loop 5: invariant roWanted(slots)
+//@   loop 6: invariant 0 <= i && roWanted(slots)
+//@   loop 7: invariant 0 <= i && roWanted(slots)
+//@   loop 8: invariant roWanted(slots)
+//@   loop 9: invariant roWanted(slots)
+//@   loop 10: invariant roWanted(slots) && (forall k int :: 0 <= k && k < $i && slots[k].repl != nil && underreplicated ==> slots[k].want) && underreplicated == old(underreplicated) || true
+//@   calls ChangeSet.AddTrash#1: requires !slot.mnt.ReadOnly
 //@   ghost u0 bool = false
 //@   at assign desired#1: set u0 = underreplicated
 //@   at loop 5 back: assert u0 ==> underreplicated
